@@ -125,6 +125,15 @@ theorem walk_head (t : Node) (p : List Bytes) :
   | file f => exact ⟨_, [], walk_file f p, rfl, rfl⟩
   | dir n kids => exact ⟨_, _, walk_dir n kids p, rfl, rfl⟩
 
+/-- An alias of a folder.  `filepath.Walk` lstat's it (not a directory: it does not descend) and the download
+    handler, seeing that the link resolves to a folder, announces it as a folder: in the tree it is a folder
+    without children, whatever the target holds. -/
+def Node.folderAlias (name : Bytes) : Node := .dir name []
+
+theorem walk_folderAlias (n : Bytes) (p : List Bytes) : (Node.folderAlias n).walk p = [⟨p, n, none⟩] := by
+  simp [Node.folderAlias, walk_dir, sortBy]
+
+
 mutual
 /-- Plain preorder traversal in stored order: visits every node exactly once by construction. -/
 def Node.preorder : Node → List Bytes → List Entry
